@@ -240,6 +240,42 @@ fn dump_vte() -> i32 {
     0
 }
 
+/// `DELTA_VERIF=dump:features`: the built-in features (sorted), and for each the options it
+/// sets with the value computed on a default `Opt` without git config:
+/// `<feature>\t<option>\t<kind>\t<value>`.
+fn dump_features() -> i32 {
+    use crate::options::option_value::{OptionValue, ProvenancedOptionValue};
+    let env = crate::env::DeltaEnv::default();
+    let opt = crate::cli::Opt::from_iter_and_git_config(&env, vec!["delta"], None);
+    let builtin = crate::features::make_builtin_features();
+    let mut names: Vec<&String> = builtin.keys().collect();
+    names.sort();
+    let stdout = std::io::stdout();
+    let mut out = stdout.lock();
+    for name in names {
+        let feature = &builtin[name];
+        let mut options: Vec<&String> = feature.keys().collect();
+        options.sort();
+        if options.is_empty() {
+            let _ = writeln!(out, "{name}\t-\t-\t-");
+        }
+        for option in options {
+            let value = match feature[option](&opt, &None) {
+                ProvenancedOptionValue::GitConfigValue(v) | ProvenancedOptionValue::DefaultValue(v) => v,
+            };
+            let (kind, text) = match value {
+                OptionValue::Boolean(b) => ("bool", b.to_string()),
+                OptionValue::Float(f) => ("float", f.to_string()),
+                OptionValue::OptionString(s) => ("optstring", s.unwrap_or_default()),
+                OptionValue::String(s) => ("string", s),
+                OptionValue::Int(i) => ("int", i.to_string()),
+            };
+            let _ = writeln!(out, "{name}\t{option}\t{kind}\t{}", hex_encode(text.as_bytes()));
+        }
+    }
+    0
+}
+
 /// Returns Some(exit code) when a verification mode handled the invocation.
 pub fn dispatch() -> Option<i32> {
     let mode = std::env::var("DELTA_VERIF").ok()?;
@@ -249,6 +285,8 @@ pub fn dispatch() -> Option<i32> {
         Some(proc_scenario(spec))
     } else if mode == "dump:vte" {
         Some(dump_vte())
+    } else if mode == "dump:features" {
+        Some(dump_features())
     } else {
         None
     }
